@@ -1,5 +1,6 @@
 import Sentinel.Drv.Common
 import Sentinel.Model.Bucket
+import Sentinel.Model.BucketReads
 /-! Driver for C08: `model` = code-shaped leap array, `spec` = aligned-bucket reference over the history -/
 namespace Sentinel.Drv.C08
 open Sentinel.LA Sentinel.Drv
@@ -89,6 +90,31 @@ def readView (spec : Bool) (s : St) (a : Arr Bucket) (h : List (Nat × Bucket)) 
   let prevOk := !spec || (decide (Iv + Iv / sc ≤ s.a.n * s.a.L) && decide (s.now ≠ Iv / sc))
   (getter wsum maxb s.now sc Iv prevOk node rest).getD "bad-op"
 
+/-- an array-level read that reduces the payload of all valid buckets (`Count`, `MinRt`, `MaxConcurrency`): it refreshes
+    the current bucket first — for the reference a recording of the empty payload — and its reference is the payload of
+    the last `n` aligned buckets ending at the current one -/
+def aread (spec : Bool) (s : St) (atZero : String) (ofRef : Bucket → String)
+    (model : Arr Bucket → Nat → Arr Bucket × String) : St × Option String :=
+  if spec then
+    if !s.mono then (s, some "?") else
+    if s.now = 0 then (s, some atZero) else
+    let e := cbs s.a.L s.now
+    let s := { s with hist := s.hist ++ [(s.now, 0)] }
+    (s, some (ofRef (refB s (e + s.a.L - s.a.n * s.a.L) e)))
+  else
+    let r := model s.a s.now
+    ({ s with a := r.1 }, some r.2)
+
+/-- one bucket of `Values(now)`: `start:pass:block:complete:error:rt:minRt:maxConcurrency` -/
+def showBucket (p : Nat × Bucket) : String :=
+  let b := p.2
+  s!"{p.1}:{b.pass}:{b.block}:{b.complete}:{b.error}:{b.rt}:{b.minRt}:{b.mc}"
+
+/-- canonical form of a bucket list: sorted by start, untouched buckets dropped (whether an empty bucket has a slot
+    is not something the event history determines) -/
+def sortBuckets (xs : List (Nat × Bucket)) : List (Nat × Bucket) :=
+  ((xs.filter fun p => !(p.2.pass == 0 && p.2.block == 0 && p.2.complete == 0 && p.2.error == 0 && p.2.rt == 0 && p.2.hr == 0 && p.2.mc == 0)).toArray.qsort fun a b => a.1 < b.1).toList
+
 def step (spec : Bool) (s : St) (ts : List String) (_ : String) : St × Option String :=
   match ts with
   | ["la.new", n, I, t] => match n.toNat?, I.toNat?, t.toNat? with
@@ -145,18 +171,25 @@ def step (spec : Bool) (s : St) (ts : List String) (_ : String) : St × Option S
           | some (sc, Iv) => (s, some (readView spec s nd.a (s.hist.drop nd.off) sc Iv false rest))
       | _, _ => (s, some "bad-op")
   | ["count", ev] => match Ev.ofString? ev with
-      | some ev =>
-        if spec then
-          if !s.mono then (s, some "?") else
-          if s.now = 0 then (s, some "0") else
-          let e := cbs s.a.L s.now
-          -- the refresh performed by an array-level read is a recording of the empty payload
-          let s := { s with hist := s.hist ++ [(s.now, 0)] }
-          (s, some (toString ((refB s (e + s.a.L - s.a.n * s.a.L) e).get ev)))
-        else
-          let (a', c) := aCount s.a s.now ev
-          ({ s with a := a' }, some (toString c))
+      | some ev => aread spec s "0" (fun w => toString (w.get ev)) (fun a now => let r := aCount a now ev; (r.1, toString r.2))
       | none => (s, some "bad-op")
+  | ["aminrt"] => aread spec s (toString maxRt) (fun w => toString w.minRt)
+      (fun a now => let r := aMinRt a now; (r.1, toString r.2))
+  | ["amaxconc"] => aread spec s "0" (fun w => toString w.mc)
+      (fun a now => let r := aMaxConc a now; (r.1, toString r.2))
+  | ["values"] =>
+      if spec then
+        if !s.mono then (s, some "?") else
+        if s.now = 0 then (s, some "[]") else
+        let L := s.a.L
+        let e := cbs L s.now
+        let s := { s with hist := s.hist ++ [(s.now, 0)] }
+        -- the last `n` aligned buckets, oldest first, each with its own reference
+        let starts := ((List.range s.a.n).filterMap fun i => if i * L ≤ e then some (e - i * L) else none).reverse
+        (s, some (showList ((sortBuckets (starts.map fun b => (b, refB s b b))).map showBucket)))
+      else
+        let r := aValues s.a s.now
+        ({ s with a := r.1 }, some (showList ((sortBuckets (r.2.map fun sl => (sl.start, sl.val))).map showBucket)))
   | ["items", lo, hi] => match lo.toNat?, hi.toNat? with
       | some lo, some hi =>
         if spec then
